@@ -1,0 +1,53 @@
+//go:build verif
+
+// Contracts for the verifier in /verif (comment-only file; contributes no declarations).
+package utils
+
+// The helpers the processors read their configured parameters with: what comes out is the value stored under the
+// parameter's own name (seconds become a duration of that many seconds), a missing parameter is an error.
+//@ pure ParamValue.GetInt
+//@ pure ParamValue.GetString
+//@ pure ParamValue.GetFloat64
+// a declared parameter carries a value (the configuration parser never stores a nil one; trusted)
+//@ ghost func pvOK(m map[string]streamtypes.ProcessorParam) bool = forall(k, string, in(k, m) ==> m[k].Value != nil)
+
+//@ func ExtractStrParam
+//@   prop C06
+//@   requires pvOK(metaData)
+//@   modifies *result
+//@   temporaries cell
+//@   results err
+//@   ensures[value-of-the-named-parameter] err == nil ==> in(paramName, metaData) && *result == metaData[paramName].Value.GetString()
+//@   ensures[missing-is-an-error] !in(paramName, metaData) ==> err != nil
+//@ func ExtractIntParam
+//@   prop C06, C17
+//@   requires pvOK(metaData)
+//@   modifies *result
+//@   temporaries cell
+//@   results err
+//@   ensures[value-of-the-named-parameter] err == nil ==> in(paramName, metaData) && *result == metaData[paramName].Value.GetInt()
+//@   ensures[missing-is-an-error] !in(paramName, metaData) ==> err != nil
+//@ func ExtractInt64Param
+//@   prop C06
+//@   requires pvOK(metaData) && result != nil
+//@   modifies *result
+//@   temporaries cell
+//@   results err
+//@   ensures[value-of-the-named-parameter] err == nil ==> in(paramName, metaData) && *result == metaData[paramName].Value.GetInt()
+//@   ensures[missing-is-an-error] !in(paramName, metaData) ==> err != nil
+//@ func ExtractFloat64Param
+//@   prop C17
+//@   requires pvOK(metaData) && result != nil
+//@   modifies *result
+//@   temporaries cell
+//@   results err
+//@   ensures[value-of-the-named-parameter] err == nil ==> in(paramName, metaData) && *result == metaData[paramName].Value.GetFloat64()
+//@   ensures[missing-is-an-error] !in(paramName, metaData) ==> err != nil
+//@ func ExtractDurationInSecParam
+//@   prop C06, C17
+//@   requires pvOK(metaData) && result != nil
+//@   modifies *result
+//@   temporaries cell
+//@   results err
+//@   ensures[that-many-seconds] err == nil ==> in(paramName, metaData) && *result == metaData[paramName].Value.GetInt() * 1000000000
+//@   ensures[missing-is-an-error] !in(paramName, metaData) ==> err != nil
